@@ -918,3 +918,41 @@ theorem C11_lbp_safe_partial (env : Env) (P : Nat) (hP : P ≤ 32)
         if n = "npoints" then { kind := 2, ival := 40 } else {}) = true ∧
       Generated.links_features_lbp_lbp_transform__lbp_map.getD 1 default = ("npoints", .pass "points")) :=
   ⟨⟨((C11_features_guards_imply_pre env).1 hn).2, (C10_lbp_map_in_bounds P hP).1⟩, by decide⟩
+
+/-- **C11+C10 (surf / interest_points / pyramid → build_pyramid).** If the extracted guards of a native SURF entry point that
+builds the pyramid pass (the integer parameters being C ints), the array is a matrix `n0 × n1` (well-formed descriptor)
+and `initial_step_size ≥ 1`, which is all `C10_surf_pyramid_in_bounds` needs: every `pyramid[o]` index, all 32 integral-image
+reads of the eight lobes of every sample and every write `at(i, y/step, x/step)` of the C10 model are in bounds and the
+`y += step_size` loops terminate — for the octave and interval counts at hand (`1 … 30`, `≥ 1`). -/
+theorem C11_surf_pyramid_safe (env : Env) (wf : (env "array").wf)
+    (ho : (env "nr_octaves").kind = 2) (hi : (env "nr_intervals").kind = 2) (hs : (env "initial_step_size").kind = 2)
+    (h : npasses Generated.nativeGuards_surf_surf env = true ∨ npasses Generated.nativeGuards_surf_interest_points env = true ∨
+         npasses Generated.nativeGuards_surf_pyramid env = true) :
+    PreSurf env ∧ ∃ n0 n1 : Nat, (env "array").shape = [n0, n1] ∧
+      Mahotas.C10Surf.sAllOk (Mahotas.C10Surf.pyramidAccesses n0 n1 (env "nr_octaves").ival (env "nr_intervals").ival
+        (env "initial_step_size").ival) = true ∧
+      Mahotas.C10Surf.pyramidDone (env "nr_octaves").ival (env "initial_step_size").ival = true := by
+  have hp : PreSurf env := by
+    rcases h with h | h | h
+    · exact ((C11_surf_guards_imply_pre env ho hi hs).1 h).2.2
+    · exact ((C11_surf_guards_imply_pre env ho hi hs).2.1 h).2
+    · exact ((C11_surf_guards_imply_pre env ho hi hs).2.2 h).2
+  obtain ⟨n0, n1, e⟩ := shape_of_len_two (env "array").shape (by rw [← wf]; exact hp.1)
+  have := C10_surf_pyramid_in_bounds n0 n1 (env "nr_octaves").ival (env "nr_intervals").ival (env "initial_step_size").ival hp.2.2.2.2
+  exact ⟨hp, n0, n1, e, this.1, this.2⟩
+
+/-- **C11 (surf.descriptors / surf.dense): the guards do NOT imply the precondition of `sum_rect`.** A 40 × 40 double
+image with one interest point row of five doubles passes every extracted guard of the native `py_descriptors` (the wrapper
+guards of `dense` — finite `scale ≥ 0.001`, `spacing ≥ 1` — are value tests on floats, opaque); yet by
+`C10_surf_descriptor_guard_insufficient` the point (15, 15) with scale 1 passes the kernel's own border test and one of its
+Haar windows is out of bounds, `sum_rect` being in bounds exactly when `y0 ≤ N0 ∧ x0 ≤ N1 ∧ 1 ≤ y1 ∧ 1 ≤ x1` on a non-empty
+image (`C10_surf_sum_rect_in_bounds_iff`). A GENUINE DEFECT of the code, confirmed under AddressSanitizer
+(`surf.dense(rand(40,40), 1)`; open known finding of C10, `corpus/C10/surf_*.json`). -/
+theorem C11_surf_descriptors_guards_insufficient :
+    npasses Generated.nativeGuards_surf_descriptors (fun n =>
+      if n = "array" then { kind := 1, ndim := 2, dcls := 3, shape := [40, 40], tnum := 12, flags := 7 } else
+      if n = "points_arr" then { kind := 1, ndim := 2, dcls := 3, shape := [1, 5], tnum := 12, flags := 7 } else {}) = true ∧
+    Mahotas.C10Surf.descGuard 40 40 15 15 1 = true ∧
+    Mahotas.C10Surf.sAllOk (Mahotas.C10Surf.haarAccesses 40 40 (Mahotas.C10Surf.descSample 15 15 1 (-20 / 29) (21 / 29) (-10) (-10)).1
+      (Mahotas.C10Surf.descSample 15 15 1 (-20 / 29) (21 / 29) (-10) (-10)).2 (Mahotas.C10Surf.descWindow 1)) = false :=
+  ⟨by decide, C10_surf_descriptor_guard_insufficient.1, C10_surf_descriptor_guard_insufficient.2.2.2.2⟩
